@@ -2,6 +2,7 @@
 attribute is wrapped (same wrapper object in every bycycle namespace holding it, so
 pickling by reference still works). The wrapper consults the active controller
 before and after the wrapped call: interruption points and yield points."""
+import _thread
 import functools
 import os
 import sys
@@ -182,6 +183,111 @@ class activate:
         return False
 
 
+CURRENT_BATON = None       # the baton of the running interleaved session set (or None)
+
+
+class SimLock:
+    """threading.Lock stand-in handed to bycycle code: an ordinary lock, except that a caller
+    session that would block on it while holding the baton hands the baton on instead (the
+    holder of the lock is a parked session; blocking for real would stall the simulation).
+    Who runs next is chosen through the tape, so runs stay repeatable."""
+
+    def __init__(self):
+        self._real = _thread.allocate_lock()
+
+    def acquire(self, blocking=True, timeout=-1):
+        if self._real.acquire(False):
+            return True
+        if not blocking:
+            return False
+        b = CURRENT_BATON
+        if b is None or not b.is_holder():
+            return self._real.acquire(True, timeout)
+        while not self._real.acquire(False):
+            b.blocked_yield()
+        return True
+
+    def release(self):
+        self._real.release()
+
+    def locked(self):
+        return self._real.locked()
+
+    def __enter__(self):
+        self.acquire()
+        return True
+
+    def __exit__(self, *exc):
+        self.release()
+
+    def _at_fork_reinit(self):
+        self._real = _thread.allocate_lock()
+
+
+class SimRLock:
+    """Re-entrant variant (owner + count on top of SimLock); supports threading.Condition."""
+
+    def __init__(self):
+        self._block = SimLock()
+        self._owner = None
+        self._count = 0
+
+    def acquire(self, blocking=True, timeout=-1):
+        me = _thread.get_ident()
+        if self._owner == me:
+            self._count += 1
+            return True
+        ok = self._block.acquire(blocking, timeout)
+        if ok:
+            self._owner, self._count = me, 1
+        return ok
+
+    def release(self):
+        if self._owner != _thread.get_ident():
+            raise RuntimeError('cannot release un-acquired lock')
+        self._count -= 1
+        if self._count == 0:
+            self._owner = None
+            self._block.release()
+
+    def __enter__(self):
+        self.acquire()
+        return True
+
+    def __exit__(self, *exc):
+        self.release()
+
+    def _is_owned(self):
+        return self._owner == _thread.get_ident()
+
+    def _release_save(self):
+        state = (self._count, self._owner)
+        self._count, self._owner = 0, None
+        self._block.release()
+        return state
+
+    def _acquire_restore(self, state):
+        self._block.acquire()
+        self._count, self._owner = state
+
+    def _at_fork_reinit(self):
+        self._block._at_fork_reinit()
+        self._owner, self._count = None, 0
+
+
+class sim_locks:
+    """Context manager: threading.Lock / RLock create simulator-aware locks inside the block."""
+
+    def __enter__(self):
+        self._saved = (threading.Lock, threading.RLock)
+        threading.Lock, threading.RLock = SimLock, SimRLock
+        return self
+
+    def __exit__(self, *exc):
+        threading.Lock, threading.RLock = self._saved
+        return False
+
+
 class Baton:
     """Exactly one caller session runs at any time; the baton moves only at yield points
     and at session boundaries, and the next holder is chosen through the tape."""
@@ -196,6 +302,7 @@ class Baton:
         self.threads = [None] * n
         self.switches = 0
         self.switches_inside_call = 0
+        self.lock_yields = 0
         self.in_call = [False] * n
         self.log = []
         self.errors = [None] * n
@@ -218,6 +325,21 @@ class Baton:
         self.events[nxt].set()
         self.events[me].wait()
         self.events[me].clear()
+
+    def is_holder(self):
+        t = threading.current_thread()
+        return self.current is not None and self.threads[self.current] is t
+
+    def blocked_yield(self):
+        """The holder cannot get a lock that a parked session owns: someone else must run."""
+        me = self._me()
+        others = [i for i in self.alive if i != me]
+        if not others:
+            from .simpool import SimDeadlock
+            raise SimDeadlock('session %d waits for a lock that no live session can release' % me)
+        self.lock_yields += 1
+        nxt = others[self.tape.choose(len(others), 'baton-lock')]
+        self._handoff(me, nxt, 'blocked-on-lock')
 
     def yield_point(self, where):
         me = self._me()
@@ -250,9 +372,14 @@ class Baton:
             self.threads[i] = t
         for t in self.threads:
             t.start()
-        first = self.alive[self.tape.choose(len(self.alive), 'baton-first')]
-        self.current = first
-        self.events[first].set()
-        self.done_event.wait()
-        for t in self.threads:
-            t.join(timeout=5)
+        global CURRENT_BATON
+        CURRENT_BATON = self
+        try:
+            first = self.alive[self.tape.choose(len(self.alive), 'baton-first')]
+            self.current = first
+            self.events[first].set()
+            self.done_event.wait()
+            for t in self.threads:
+                t.join(timeout=5)
+        finally:
+            CURRENT_BATON = None
